@@ -16,8 +16,27 @@ SIZES = [0, 1, 2, 15, 16, 17, 31, 32, 33, 47, 48, 49, 63, 64, 65, 255, 256, 257]
 BIG = [4095, 4096, 4097, 4112]
 
 
+_LASTKEY = [None]
+
+
 def rkey(r):
-    return vlib.hx(r.bytes(r.choice([16, 32])))
+    """a key; one in five shares its first 16 or all but its last bytes with the key generated before (two keys that a cache
+    keyed on a prefix, or on the length, would confuse) -- also across the cases of one run"""
+    last = _LASTKEY[0]
+    if last is not None and r.chance(1, 5):
+        k = bytearray(last)
+        m = r.below(3)
+        if m == 0 and len(k) == 32:
+            k[16:] = r.bytes(16)                    # same first half
+        elif m == 1:
+            k[-1] ^= 1 << r.below(8)                # differs in the last byte only
+        else:
+            k = bytearray(last[:16]) if len(k) == 32 else bytearray(last + r.bytes(16))     # the other size, same prefix
+        key = bytes(k)
+    else:
+        key = r.bytes(r.choice([16, 32]))
+    _LASTKEY[0] = key
+    return vlib.hx(key)
 
 
 def rnonce(r):
@@ -207,7 +226,11 @@ def gen_far(r):
     ops = ["expand " + rkey(r), "init %d" % rnonce(r)]
     if r.chance(1, 2):
         ops.append(stream_op(r, r.choice([1, 16, 33])))
-    boundary = r.choice([1 << 24, 1 << 32, 1 << 32, 1 << 40, 1 << 48, 1 << 56, (1 << 32) * 3, 1 << 59])
+    boundary = r.choice([1 << 24, 1 << 32, 1 << 32, 1 << 40, 1 << 48, 1 << 56, (1 << 32) * 3, 1 << 59,
+                         # any block whose index is a multiple of 256 (the low counter byte wraps there) beyond 4 GiB of stream:
+                         # the position no longer fits in 32 bits, the block index still does / does not
+                         256 * r.range((1 << 20) + 1, 1 << 24), 256 * r.range((1 << 20) + 1, 1 << 24),
+                         256 * r.range(1 << 24, 1 << 51)])
     back = r.choice([1, 2, 3, 5, 17])
     ops.append("seek %d" % (boundary - back))
     for _ in range(r.range(2, 5)):
